@@ -229,6 +229,8 @@ def check_C04(tier):
     engine_run(c, "agg", "AggMenu", lines="LinesAgg", maxlines=4 if t else 3, maxfiles=1, tdefs=("plain",) if not t else ("plain", "knn", "vdef"), modes=("batch",))
     # aggregates over TIMESTAMP and INTERVAL values (MIN / MAX by instant, SUM / AVG of intervals, GROUP BY a timestamp, DISTINCT on them)
     engine_run(c, "calendar-agg", "CalAggMenu", lines="LinesCal", maxlines=3, maxfiles=1, tdefs=("plain",), modes=("batch",))
+    # HAVING and DISTINCT together judge every group on its own key and aggregates
+    engine_run(c, "agg-distinct-having", "DistinctMenu", lines="Lines4", maxlines=3, maxfiles=1, tdefs=("plain",), modes=("batch",))
     engine_sim(c, "agg", "AggMenu", lines="LinesRich", maxlines=10, num=2500 if t else 200, modes=("batch",))
     c.rule, c.assumptions, c.exhaustive = ENGINE_RULE, ENGINE_ASSUME, True
     return c.finish()
@@ -288,6 +290,8 @@ def check_C08(tier):
     c = Check("C08", tier, "model_checking")
     t = tier == "thorough"
     engine_run(c, "distinct", "DistinctMenu", lines="Lines4", maxlines=5 if t else 4, maxfiles=1, modes=("batch", "incr"), tdefs=("plain",))
+    # DISTINCT with a join: duplicate lines of the joined file still count for aggregates, equal pairs are removed for SELECT
+    engine_run(c, "distinct-join", "JoinMenu", lines="LinesJ", maxlines=3 if t else 2, maxfiles=1, tdefs=("plain",))
     engine_sim(c, "distinct", "DistinctMenu", lines="LinesRich", maxlines=12, num=2000 if t else 150)
     c.rule, c.assumptions, c.exhaustive = ENGINE_RULE, ENGINE_ASSUME, True
     return c.finish()
@@ -335,12 +339,13 @@ def check_C19(tier):
 def check_C06(tier):
     c = Check("C06", tier, "model_checking")
     t = tier == "thorough"
-    engine_run(c, "noise", "CoreLimitMenu", lines="LinesNoise", maxlines=4 if t else 3, maxfiles=1, modes=("batch", "incr"), tdefs=("plain", "knn", "vdef", "bothnn"))
+    engine_run(c, "noise", "NoiseMenu", lines="LinesNoise", maxlines=4 if t else 3, maxfiles=1, modes=("batch", "incr"), tdefs=("plain", "knn", "vdef", "bothnn") if t else ("plain", "vdef", "bothnn"))
     engine_run(c, "noise-join", "JoinMenu", lines="LinesNoise", maxlines=2, maxfiles=1, tdefs=("plain", "knn"))
+    engine_run(c, "noise-default", "NoiseMenu", lines="LinesNoiseDefault", maxlines=3, maxfiles=1, modes=("batch", "incr"), tdefs=("vdef", "plain"))
     # a pattern anchored at both ends (^...$) and noise lines longer than the reader's buffers (8 KiB, 64 KiB) whose tail reads like a row
     engine_run(c, "noise-long", "CoreLimitMenu", lines="LinesNoiseLong", maxlines=3, maxfiles=2 if t else 1, modes=("batch", "incr"), tdefs=("anch",))
     laws_trace(c, 2 if t else 1, 300 if t else 100)
-    engine_sim(c, "noise", "CoreLimitMenu", lines="LinesNoise", maxlines=12, num=1500 if t else 120, tdefs=("plain", "bothnn"))
+    engine_sim(c, "noise", "NoiseMenu", lines="LinesNoise", maxlines=12, num=1500 if t else 120, tdefs=("plain", "bothnn"))
     c.rule, c.assumptions, c.exhaustive = ENGINE_RULE, ENGINE_ASSUME, True
     return c.finish()
 
@@ -610,6 +615,10 @@ def check_C15(tier):
     t = tier == "thorough"
     engine_run(c, "order", "OrderMenu", lines="LinesAgg", maxlines=4 if t else 3, maxfiles=1, tdefs=("plain",),
                invs=["TypeOK", "BatchRefinesSem", "PermLaw", "CombineLaw"], props=())
+    # the lines themselves do not depend on where they fall relative to the reader's buffer (a line mangled at an 8 KiB boundary would move between groups with the order of the input)
+    rr = tlc("MC_Reader", cfg_text(constants={"MaxLen": 4, "MaxFiles": 2, "Dev": set()}, invariants=["ExactlyOnceInOrder", "ConcatLaw", "Emit"]), "reader-c15", workers=W)
+    expect_holds(rr, "Reader (C15)"); c.add_tlc(rr)
+    c.add_report(vh_replay("reader", rr.replay_path, "reader-c15"), "FileExecutor / join loader line reading vs Reader.tla (replay)")
     # aggregates over REALs closer than f64::EPSILON / the two zeros / NaN, in both arrival orders (typed comparison in incremental mode)
     engine_run(c, "real-order", "RealOrderMenu", lines="LinesPick", maxlines=3, maxfiles=1, modes=("incr",), tdefs=("plain",), invs=["TypeOK", "IncrRefinesSem", "PermLaw"], props=())
     # order-insensitive aggregates over TIMESTAMP / INTERVAL values with NULLs in every position of a group (every ordering of every input)
